@@ -50,34 +50,35 @@ type Thread struct {
 	panicV  any
 	panicAt string
 	steps   int
+	role    string
 }
 
 // Sim is the controlled scheduler. Exactly one simulated thread runs at any time; which one
 // is decided here, from the PRNG (or a recorded schedule), among the threads whose next
 // action cannot block given the real state of the block latches.
 type Sim struct {
-	threads  []*Thread
-	cur      *Thread
-	inbox    chan struct{}
-	rng      *Rng
-	strategy string
-	replay   []int16
-	Sched    []int16
-	steps    int
-	maxSteps int
-	drain    bool // over budget or stopping: no more choices, just finish
-	trace    hash64
-	ilv      hash64
-	choices  int // decisions with more than one enabled thread
-	muted    [ptMax]bool
-	hits     [ptMax]int
-	last     *Thread
-	burst    int
-	pctAt    []int
+	threads   []*Thread
+	cur       *Thread
+	inbox     chan struct{}
+	rng       *Rng
+	strategy  string
+	replay    []int16
+	Sched     []int16
+	steps     int
+	maxSteps  int
+	drain     bool // over budget or stopping: no more choices, just finish
+	trace     hash64
+	ilv       hash64
+	choices   int // decisions with more than one enabled thread
+	muted     [ptMax]bool
+	hits      [ptMax]int
+	last      *Thread
+	burst     int
+	pctAt     []int
 	afterStep func(t *Thread) // world callback on the scheduler goroutine after each step
 	onPick    func(t *Thread, enabled int)
-	watchdog time.Duration
-	hung     string
+	watchdog  time.Duration
+	hung      string
 }
 
 func NewSim(rng *Rng, strategy string, replay []int16) *Sim {
@@ -90,6 +91,13 @@ func NewSim(rng *Rng, strategy string, replay []int16) *Sim {
 func (s *Sim) Go(name string, body func(*Thread)) *Thread {
 	t := &Thread{ID: len(s.threads), Name: name, resume: make(chan struct{}), body: body, pt: Point{Kind: ptStart}}
 	s.threads = append(s.threads, t)
+	return t
+}
+
+// GoRole registers a thread with a role tag the world can test.
+func (s *Sim) GoRole(role, name string, body func(*Thread)) *Thread {
+	t := s.Go(name, body)
+	t.role = role
 	return t
 }
 
@@ -159,7 +167,7 @@ func (s *Sim) WaitUntil(kind uint8, ready func() bool) {
 
 func (s *Sim) park(pt Point) {
 	s.hits[pt.Kind]++
-	if s.muted[pt.Kind] && pt.Ready == nil && enabledAt(pt) {
+	if s.muted[pt.Kind] && pt.Ready == nil && enabledAt(pt) && pt.Kind != ptStart {
 		return
 	}
 	t := s.cur
@@ -188,11 +196,13 @@ func rwState(p unsafe.Pointer) (readers int32, writer bool) {
 func enabledAt(pt Point) bool {
 	switch pt.Kind {
 	case uint8(column.SimBeforeRLock):
-		_, w := latchState(pt.Latch, pt.Arg)
-		return !w
+		if _, w := latchState(pt.Latch, pt.Arg); w {
+			return false
+		}
 	case uint8(column.SimBeforeLock):
-		r, w := latchState(pt.Latch, pt.Arg)
-		return !w && r == 0
+		if r, w := latchState(pt.Latch, pt.Arg); w || r != 0 {
+			return false
+		}
 	}
 	if pt.Ready != nil {
 		return pt.Ready()
@@ -220,7 +230,9 @@ type PanicError struct {
 	At     string
 }
 
-func (e *PanicError) Error() string { return fmt.Sprintf("panic in %s at %s: %v", e.Thread, e.At, e.Val) }
+func (e *PanicError) Error() string {
+	return fmt.Sprintf("panic in %s at %s: %v", e.Thread, e.At, e.Val)
+}
 
 // Run schedules the registered threads until all have finished.
 func (s *Sim) Run() error {
